@@ -104,3 +104,148 @@ package bus
 //@   trusted
 //@   pure
 //@   ensures result != nil
+
+// ---- authentication gate (C06)
+// set once while the server / the connection is being set up, before any message is consumed
+//@ immutable server.Router, channel.endpoint
+// authd: the connection has passed authentication (abstract view of a Channel).
+// For the concrete *channel the ghost is tied to the capability map by its representation
+// invariant authd == capAuthed(capability).
+//@ ghostfield authd bool
+//@ spec capAuthed(m CapabilityMap) bool := has(m, "__qi_auth_state") && ((typeis(m["__qi_auth_state"], value.UintValue) && unbox(m["__qi_auth_state"], value.UintValue) == 3) || (typeis(m["__qi_auth_state"], value.IntValue) && unbox(m["__qi_auth_state"], value.IntValue) == 3))
+// what an authenticator answers is an arbitrary function of (authenticator, user, token)
+//@ spec authok(a Authenticator, user string, token string) bool
+//@ interface (a Authenticator) Authenticate(user string, token string) (result bool)
+//@   trusted
+//@   pure
+//@   ensures result == authok(a, user, token)
+
+//@ interface (c Channel) Authenticated() (result bool)
+//@   trusted
+//@   pure
+//@   ensures result == c.authd
+//@ interface (c Channel) SetAuthenticated()
+//@   trusted
+//@   modifies c.authd
+//@   ensures c.authd
+//@ interface (c Channel) Cap() (result CapabilityMap)
+//@   trusted
+//@   pure
+//@   ensures forall k string {has(result, k)} :: has(result, k) ==> result[k] != nil
+
+//@ func (c CapabilityMap) Authenticated() (result bool)
+//@   tags C06
+//@   pure
+//@   ensures[C06] result == capAuthed(c)
+//@ func (c CapabilityMap) SetAuthenticated()
+//@   tags C06
+//@   requires c != nil
+//@   modifies c[*]
+//@   ensures[C06] capAuthed(c)
+//@   ensures[C06] forall k string {has(c, k)} :: k != "__qi_auth_state" ==> (has(c, k) <==> old(has(c, k)))
+
+// the concrete channel implements the abstract view (representation invariant as precondition)
+//@ func (c *channel) Authenticated() (result bool)
+//@   tags C06
+//@   requires c.authd == capAuthed(c.capability)
+//@   pure
+//@   ensures[C06] result == c.authd
+//@ func (c *channel) SetAuthenticated()
+//@   tags C06
+//@   requires c.capability != nil
+//@   modifies c.authd, c.capability[*]
+//@   ensures[C06] c.authd && capAuthed(c.capability)
+//@   ghost_at_return c.authd := true
+
+// firewall: a message passes iff the connection is authenticated or it addresses service 0.
+//@ func firewall(m *net.Message, from Channel) (err error)
+//@   tags C06
+//@   requires m != nil && from != nil
+//@   pure
+//@   ensures[C06] err == nil <==> (from.authd || m.Header.Service == 0)
+
+// userOf / tokenOf: the credentials the authentication service reads from the client's map.
+//@ spec credStr(m CapabilityMap, k string) string := has(m, k) && typeis(m[k], value.StringValue) ? unbox(m[k], value.StringValue) : ""
+//@ spec credBad(m CapabilityMap, k string) bool := has(m, k) && !typeis(m[k], value.StringValue)
+
+//@ func (s *serviceAuthenticate) capError() (result CapabilityMap)
+//@   tags C06
+//@   ensures fresh(result) && result != nil
+//@   ensures forall k string {has(result, k)} :: has(result, k) ==> result[k] != nil
+
+// Authenticate: the channel becomes authenticated only if it already was or the authenticator
+// accepts exactly the user/token strings of the client's map; nothing else of the map matters;
+// wrongly typed credentials change nothing.
+//@ func (s *serviceAuthenticate) Authenticate(from Channel, cap CapabilityMap) (result CapabilityMap)
+//@   tags C06
+//@   requires from != nil && s.auth != nil
+//@   modifies from.authd
+//@   ensures forall k string {has(result, k)} :: has(result, k) ==> result[k] != nil
+//@   ensures[C06] from.authd ==> old(from.authd) || (!credBad(cap, "auth_user") && !credBad(cap, "auth_token") && authok(s.auth, credStr(cap, "auth_user"), credStr(cap, "auth_token")))
+//@   ensures[C06] credBad(cap, "auth_user") || credBad(cap, "auth_token") ==> from.authd == old(from.authd)
+//@   ensures[C06] !credBad(cap, "auth_user") && !credBad(cap, "auth_token") && !authok(s.auth, credStr(cap, "auth_user"), credStr(cap, "auth_token")) ==> from.authd == old(from.authd)
+
+// Router.Receive: lock discipline; unknown service is answered with an error.
+//@ guarded_by (r *Router) r.RWMutex: r.services, r.services[*]
+//@   monitor r.services != nil
+//@   monitor forall k uint32 {has(r.services, k)} :: has(r.services, k) ==> r.services[k] != nil
+//@ interface (s ServiceReceiver) Receive(m *net.Message, from Channel) (err error)
+//@   trusted
+//@   modifies everything
+//@ func (r *Router) Receive(m *net.Message, from Channel) (err error)
+//@   tags C06 C04
+//@   requires !r.RWMutex.lockw && r.RWMutex.lockr == 0 && m != nil && from != nil
+//@   modifies everything
+//@   ensures !r.RWMutex.lockw && r.RWMutex.lockr == 0
+//@   ensures[C04] !at_unlock(has(r.services, m.Header.Service)) ==> from.errsent == old(from.errsent) + 1
+
+// The per-connection consumer loop of server.handle: a message is handed to the router only on a
+// path where firewall accepted it (authenticated connection, or service 0).
+//@ func (s *server) handle$2()
+//@   tags C06
+//@   requires context != nil && consumer != nil && stream != nil && s != nil && s.Router != nil
+//@   requires !s.Router.RWMutex.lockw && s.Router.RWMutex.lockr == 0
+//@   modifies everything
+//@   requires context.endpoint != nil
+//@   call firewall#1: assume msg != nil
+//@   call Receive#1: assert[C06] context.authd || msg.Header.Service == 0
+//@   loop 1:
+//@     invariant context != nil && consumer != nil && stream != nil && s != nil && s.Router != nil && !s.Router.RWMutex.lockw && s.Router.RWMutex.lockr == 0 && context.endpoint != nil
+
+// Service 0 (authentication service): any action other than authenticate is answered with an
+// error and changes nothing.
+//@ func (s *serviceAuthenticate) Receive(m *net.Message, from Channel) (err error)
+//@   tags C06
+//@   requires m != nil && from != nil && s.auth != nil
+//@   modifies everything
+//@   ensures[C06] old(m.Header.Action) != 8 ==> from.authd == old(from.authd) && from.errsent == old(from.errsent) + 1
+
+// Capability map decoder: count bounded before allocating, every entry read through the verified
+// string / dynamic-value decoders, truncated input is an error.
+//@ func ReadCapabilityMap(in io.Reader) (m CapabilityMap, err error)
+//@   tags C06 C07 C08
+//@   opt alloclimit 4096
+//@   decoder in
+//@   ensures err == nil ==> m != nil
+//@   ensures[C07] old(in.len) - old(in.pos) >= 4 && le32(in.data, old(in.pos)) > 4096 ==> err != nil
+//@   ensures[C08] old(in.len) - old(in.pos) < 4 ==> err != nil
+//@   loop 1:
+//@     invariant 0 <= i && i <= size && size <= 4096 && m != nil && in.pos >= old(in.pos) + 4 + 8 * i && in.pos <= in.len
+//@     invariant (in.short ==> old(in.short)) && (old(in.short) ==> in.short)
+//@     decreases size - i
+//@     progress in.pos
+
+//@ func WriteCapabilityMap(m CapabilityMap, out io.Writer) (err error)
+//@   tags C06
+//@   requires forall k string {has(m, k)} :: has(m, k) ==> m[k] != nil
+//@   encoder out
+//@   loop 1:
+//@     invariant out.len >= old(out.len) && (forall j int {out.data[j]} :: j < old(out.len) ==> out.data[j] == old(out.data[j]))
+
+// wrapAuthenticate: the only place that calls Authenticate; the channel's state changes only as
+// Authenticate's contract allows (for some user/token pair decoded from the request).
+//@ func (s *serviceAuthenticate) wrapAuthenticate(from Channel, payload []byte) (result []byte, err error)
+//@   tags C06
+//@   requires from != nil && s.auth != nil
+//@   modifies everything
+//@   ensures[C06] from.authd && !old(from.authd) ==> exists u string, t string {authok(s.auth, u, t)} :: authok(s.auth, u, t)
